@@ -9,6 +9,8 @@ Probed facts (Lean data in Gen/X04.lean, decided against the model in Props/X04.
  * insertOrder       tags of `PackageOverrides.overrides` after `insert`ing sources tagged 0, 1, 2 in that order
  * matchProbe        for 8 override paths x 17 resource names: the class `insert` built (dir / file) and what calling the
                      override with the name answers (None | the new path; the source must be the one inserted)
+ * pathProbe         `FSAssetSource(prefix).get_path(name)` for 2 prefixes x 10 names (leading slashes, `//`, absolute-looking
+                     names) and `PackageAssetSource(pkg, prefix).get_path(name)` for 3 prefixes x 6 names
  * loopProbe         for each of the six `PackageOverrides` query methods and each of the 8 subsets of {0,1,2}: three stub
                      sources inserted in order 0,1,2 under the package-wide override `''`, source i answering iff i is in
                      the subset: which stubs were consulted, in which order, and whose answer came back
@@ -82,6 +84,22 @@ def _probe():
                         raise RuntimeError('override answered %r' % (r,))
                     mp.append([path, kind, name, new])
         out['match'] = mp
+
+        # --- get_path of both source classes (pure string functions)
+        gp = []
+        for pfx in ('/T/d', '/T/d/'):
+            for name in ('', 'a', 'a/b', '/a', '//a', '/', 'a/', '/T/x', '/etc/passwd', 'a//b'):
+                r = A.FSAssetSource(pfx).get_path(name)
+                if not isinstance(r, str):
+                    raise RuntimeError('FSAssetSource.get_path answered %r' % (r,))
+                gp.append(['fs', pfx, name, r])
+        for pfx in ('', 'd/', 'f.txt'):
+            for name in ('', 'a', 'a/b', '/a', '//a', 'a/'):
+                r = A.PackageAssetSource('x04probe_nopkg', pfx).get_path(name)
+                if not isinstance(r, str):
+                    raise RuntimeError('PackageAssetSource.get_path answered %r' % (r,))
+                gp.append(['pkg', pfx, name, r])
+        out['get_path'] = gp
 
         # --- the six loops
         lp = []
@@ -235,7 +253,7 @@ def facts(src_root):
         want = os.path.realpath(os.path.join(src_root, 'pyramid', 'config', 'assets.py'))
         if f.get('module') != want:
             return {'status': 'unknown: the probe imported %s, not the tree under test' % f.get('module')}
-        for k in ('insert_order', 'match', 'loop', 'provider', 'validation'):
+        for k in ('insert_order', 'match', 'get_path', 'loop', 'provider', 'validation'):
             if not isinstance(f.get(k), list):
                 return {'status': 'unknown: probe answer lacks %s' % k}
     return f
@@ -268,7 +286,7 @@ def generate(src_root):
     ok = f.get('status') == 'ok'
     summary.clear()
     summary.update({'status': f.get('status'), 'insert_order': f.get('insert_order'),
-                    'entries': {k: len(f[k]) for k in ('match', 'loop', 'provider', 'validation')} if ok else None})
+                    'entries': {k: len(f[k]) for k in ('match', 'get_path', 'loop', 'provider', 'validation')} if ok else None})
     g = (lambda k: f[k]) if ok else (lambda k: [])
     L = ['/- GENERATED by extract/x04.py by probing the classes of src/pyramid/config/assets.py — do not edit. -/',
          'namespace Pyr.Assets.Gen', '',
@@ -279,6 +297,9 @@ def generate(src_root):
          '/-- `(override path, class built by insert, resource name, answer of the override: new path or none)` -/',
          'def matchProbe : List (List Char × String × List Char × Option (List Char)) := [',
          ',\n'.join('  (%s, %s, %s, %s)' % (_t(p), _s(k), _t(n), _os(r)) for p, k, n, r in g('match')), ']', '',
+         '/-- `(source class, prefix, resource name, get_path(resource name))` -/',
+         'def pathProbe : List (String × List Char × List Char × List Char) := [',
+         ',\n'.join('  (%s, %s, %s, %s)' % (_s(k), _t(p), _t(n), _t(r)) for k, p, n, r in g('get_path')), ']', '',
          '/-- `(PackageOverrides method, subset of answering stubs as a bit mask, stubs consulted in order, whose answer)` -/',
          'def loopProbe : List (String × Nat × List Nat × Option Nat) := [',
          ',\n'.join('  (%s, %d, %s, %s)' % (_s(m), k, json.dumps(c), _on(r)) for m, k, c, r in g('loop')), ']', '',
